@@ -1,3 +1,5 @@
+#[cfg(feature = "uazu-stakker-verif")]
+use crate::verif_std as std;
 use crate::{Core, Fwd, Waker};
 use std::sync::{Arc, Mutex};
 
